@@ -1581,8 +1581,10 @@ def _div(lhs,rhs):
             i = UncertainReal._constant(0.0)
         else:
             norm = abs(rhs)**2
-            r = lhs * rhs.real/norm
-            i = lhs * -rhs.imag/norm
+            # unary + : never reuse the operand itself as a component
+            # (x*1.0/1.0 is x)
+            r = +(lhs * rhs.real/norm)
+            i = +(lhs * -rhs.imag/norm)
             
         return UncertainComplex(r,i)   
     else:
@@ -1652,8 +1654,10 @@ def _mul(lhs,rhs):
             r = +lhs 
             i = UncertainReal._constant(0.0)
         else:
-            r = lhs * rhs.real
-            i = lhs * rhs.imag
+            # unary + : never reuse the operand itself as a component
+            # (x*1.0 is x)
+            r = +(lhs * rhs.real)
+            i = +(lhs * rhs.imag)
 
         return UncertainComplex(r,i)
    
@@ -1681,8 +1685,10 @@ def _rmul(lhs,rhs):
             r = +rhs 
             i = UncertainReal._constant(0.0)
         else:
-            r = lhs.real * rhs 
-            i = lhs.imag * rhs 
+            # unary + : never reuse the operand itself as a component
+            # (1.0*x is x)
+            r = +(lhs.real * rhs)
+            i = +(lhs.imag * rhs)
     
         return UncertainComplex(r,i)
     else:
@@ -1724,7 +1730,9 @@ def _sub(lhs,rhs):
             r = +lhs 
             i = UncertainReal._constant( -rhs.imag )
         else:
-            r = lhs - rhs.real
+            # unary + : never reuse the operand itself as a component
+            # (x - 0.0 is x)
+            r = +(lhs - rhs.real)
             i = UncertainReal._constant( -rhs.imag )
             
         return UncertainComplex(r,i)
@@ -1795,7 +1803,9 @@ def _add(lhs,rhs):
             r = +lhs 
             i = UncertainReal._constant(0.0)
         else:
-            r = lhs + rhs.real 
+            # unary + : never reuse the operand itself as a component
+            # (x + 0.0 is x)
+            r = +(lhs + rhs.real)
             i = UncertainReal._constant(rhs.imag)
             
         return UncertainComplex(r,i)
@@ -1826,7 +1836,9 @@ def _radd(lhs,rhs):
             r = +rhs
             i = UncertainReal._constant(0.0)
         else:
-            r = lhs.real + rhs 
+            # unary + : never reuse the operand itself as a component
+            # (0.0 + x is x)
+            r = +(lhs.real + rhs)
             i = UncertainReal._constant(lhs.imag)
             
         # Addition of a complex changes the type
